@@ -177,6 +177,8 @@ type Unit struct {
 	declared map[string]bool
 	nepoch   int
 	thName   string
+	usedBounded map[string]string // bounded-only clauses relied upon -> adapter
+	usedEnsures map[string]bool   // in-module callee ensures relied upon (obligation names)
 }
 
 const maxPaths = 6000
@@ -252,10 +254,19 @@ func (u *Unit) havocHeaps(s *State, why string) {
 	s.epoch = u.nepoch
 	s.heaps = map[string]Term{}
 	for k := range s.cells {
-		if _, ok := k.(*ssa.Global); ok {
+		if g, ok := k.(*ssa.Global); ok && u.globalMutable(g) {
 			delete(s.cells, k)
 		}
 	}
+}
+
+// globalMutable: package-level variables of this module that are only assigned by package initialisers keep
+// their value; variables of other packages are treated as immutable values (io.EOF, os.ErrNotExist, ...).
+func (u *Unit) globalMutable(g *ssa.Global) bool {
+	if g.Pkg == nil || !strings.HasPrefix(g.Pkg.Pkg.Path(), u.p.modulePath) {
+		return false
+	}
+	return u.p.mutGlobals[g]
 }
 
 func (u *Unit) declOnce(name, sort string) Term {
@@ -367,8 +378,12 @@ func (u *Unit) load(s *State, a Addr) Term {
 		var c Term
 		if _, ok := x.key.(*ssa.Alloc); ok {
 			c = u.ss.zero(et)
-		} else if _, isG := x.key.(*ssa.Global); isG {
-			c = u.declOnce(fmt.Sprintf("in.e%d.%s", s.epoch, cellName(x.key)), u.ss.sortOf(et))
+		} else if g, isG := x.key.(*ssa.Global); isG {
+			ep := s.epoch
+			if !u.globalMutable(g) {
+				ep = 0
+			}
+			c = u.declOnce(fmt.Sprintf("in.e%d.%s", ep, cellName(x.key)), u.ss.sortOf(et))
 			c.T = et
 			u.typeFacts(s, c, et)
 		} else {
